@@ -330,7 +330,7 @@ def run_S_and_H(pid, tier, seed):
 
 
 reg("C03", ["Props.C03_start_at_most_once", "Props.C03_exactly_once_at_done", "Props.C03_only_selected",
-            "Props.C03_distinct_call_sites", "Props.C03_distinct_call_sites_flags", "Props.C11_setup_at_most_once"] + COMMON_S_THEOREMS, run_S_and_H, ASSUME_S)
+            "Props.C03_distinct_call_sites", "Props.C03_distinct_call_sites_flags", "Props.C11_setup_at_most_once", "Props.C03_call_site_ids_distinct"] + COMMON_S_THEOREMS, run_S_and_H, ASSUME_S)
 def placement_when_called_from_a_worker(inner_maxc, outer_maxc, inner_async, with_setup=False):
     """A DAG invoked at RUN time from a thread node of another DAG: its invoking thread is a pool worker of the outer DAG.
     Pooled nodes of the inner DAG must still run on other threads, its main-thread nodes on the invoking (worker) thread."""
@@ -1271,6 +1271,10 @@ def run_V(pid, tier, seed):
             realtab = _V.real_table_terms(tdags[-1], mod["args"])
             bad_attrs = _V.attr_mismatches(tdags[-1], tattrs)
             stats["tables_with_attributes_checked"] = stats.get("tables_with_attributes_checked", 0) + 1
+            bad_ids = _V.id_scheme_problems(tdags[-1])
+            if bad_ids and pid in ("C20", "C01"):
+                failures.append(Failure("counterexample", "node-ids-do-not-follow-the-allocation-rule", mod,
+                                        dict(problems=bad_ids[:4], ids=list(tdags[-1].exec_nodes)[:40]), slice_="V"))
             if bad_attrs and pid in ("C20", "C01"):
                 failures.append(Failure("counterexample", "spliced-node-lost-a-declared-attribute", mod,
                                         dict(nodes=bad_attrs[:4], source=[V.def_source(d_, mod["defs"], False) for d_ in mod["defs"]]), slice_="V"))
@@ -1415,7 +1419,7 @@ def run_V_and_nested_tables(pid, tier, seed):
     return cov, fs + kfs, searcher
 
 
-reg("C20", ["Props.C20_nested_inlining_partial", "VM.traceStmts_good", "VM.bindParamRefs_good", "Props.C01_core"] + FLAG_THMS, run_V_and_nested_tables, ASSUME_V)
+reg("C20", ["Props.C20_nested_inlining_partial", "VM.traceStmts_good", "VM.bindParamRefs_good", "Props.C01_core", "Props.C20_spliced_ids_distinct"] + FLAG_THMS, run_V_and_nested_tables, ASSUME_V)
 reg("C10", ["Props.C10_flag_reads_full_reference", "Props.C10_execution_inactive_none", "Props.C10_active_runs", "Props.C03_exactly_once_at_done", "Props.C01_core", "Props.C01_flat_partial", "Props.C20_nested_inlining_partial"] + FLAG_THMS, run_V, ASSUME_V)
 
 
